@@ -121,6 +121,55 @@ func (x *run) streamOracles(which string) {
 			}
 		}
 	}
+	if which == "C11" || which == "all" {
+		// Across the operators of one runner: a watermark is stamped in the runner's send loop and broadcast; the
+		// records the runner had forwarded by then precede it in the stream of the operator they were routed to.
+		// The k-th watermark of a runner must therefore stay strictly below the largest timestamp among the
+		// records that precede the k-th watermark in ANY of its operator streams (it may not run ahead of what was
+		// forwarded, e.g. on the strength of records that are keyed but still queued).
+		bySender := map[string][][]cluster.StreamEv{}
+		for k, evs := range by {
+			bySender[k.sender] = append(bySender[k.sender], evs)
+		}
+		for sender, streams := range bySender {
+			var wms [][]int // per stream: indexes of its watermarks
+			same := true
+			for _, evs := range streams {
+				var idx []int
+				for i, e := range evs {
+					if e.Kind == 'W' {
+						idx = append(idx, i)
+					}
+				}
+				wms = append(wms, idx)
+				same = same && len(idx) == len(wms[0])
+			}
+			if !same || len(wms) == 0 {
+				x.c.Feat("runners_with_unequal_watermark_streams_skipped", 1)
+				continue
+			}
+			for kth := range wms[0] {
+				w := streams[0][wms[0][kth]].Ts
+				fwd := int64(-1 << 62)
+				equal := true
+				for si, evs := range streams {
+					equal = equal && evs[wms[si][kth]].Ts == w
+					for _, e := range evs[:wms[si][kth]] {
+						if e.Kind == 'K' && e.Ts > fwd {
+							fwd = e.Ts
+						}
+					}
+				}
+				if !equal || fwd <= -1<<61 || w <= -1<<61 {
+					continue
+				}
+				if w >= fwd {
+					x.c.Fail("watermark-ahead-of-forwarded-records", x.wit("stream", fmtStream(streams[0], wms[0][kth])), "runner %s announced watermark %d as its watermark #%d, but the largest timestamp among the records it had forwarded to any operator before that watermark is %d (a watermark stays below the event times forwarded so far)", sender, w, kth+1, fwd)
+				}
+				x.c.Feat("watermarks_checked_against_forwarded_records", 1)
+			}
+		}
+	}
 	x.c.Feat("stream_keyed_events", int64(nK))
 	x.c.Feat("stream_watermarks", int64(nW))
 	x.c.Feat("stream_barriers", int64(nB))
